@@ -341,7 +341,7 @@ type env struct {
 
 func (e *env) viol(kind, site, detail string, h hist, c client, p probe) {
 	if e.viaLine {
-		detail += " [answered from another MAC's lease on the same circuit-id]"
+		detail += " [another MAC holds a lease on the same circuit-id]"
 	}
 	v := report.Violation{Part: "fastpath[" + e.cfg.name + "]", Kind: kind, Site: site, Detail: detail, Config: e.cfg.name,
 		Trace: append(append([]string{}, h...), fmt.Sprintf("probe %s from %s", p.name, c.name))}
@@ -360,7 +360,7 @@ func classify(v *report.Violation) {
 	// from the cache entry of another MAC's lease on the same circuit-id, with that lease's address; the userspace
 	// server keys its lease table by MAC and refuses / treats the new MAC separately (same root cause as
 	// C02-K-v4-circuit-id-shared-binding).
-	if v.Class == "" && strings.Contains(v.Detail, "[answered from another MAC's lease on the same circuit-id]") && (v.Kind == "answers-where-userspace-does-not" || v.Kind == "value-differs") {
+	if v.Class == "" && strings.Contains(v.Detail, "[another MAC holds a lease on the same circuit-id]") && (v.Kind == "answers-where-userspace-does-not" || v.Kind == "value-differs") {
 		v.Class = "C03-K3-circuit-id-identifies-line"
 		return
 	}
@@ -389,7 +389,7 @@ func (e *env) evalState(h hist, ps []probe) {
 		c           client
 		p           probe
 		pl, in, out []byte
-		viaLine     bool // answered although this MAC holds nothing: the cache entry of another MAC's lease on the same circuit-id
+		viaLine     bool // another MAC holds a lease on this client's circuit-id: the line's cache entry is whoever was ACKed last
 	}
 	var pending []txCase
 	defer func() {
@@ -440,7 +440,7 @@ func (e *env) evalState(h hist, ps []probe) {
 					e.viol("answers-after-binding-ended", "dhcp_fastpath_prog", fmt.Sprintf("probe=%s: the client's binding was released/declined/expired in userspace, the fast path still answers", p.name), h, c, p)
 					continue
 				}
-				pending = append(pending, txCase{c, p, pl, in, out, lineShared && w.leased[c.name] == nil})
+				pending = append(pending, txCase{c, p, pl, in, out, lineShared})
 			}
 		}
 	})
